@@ -130,10 +130,19 @@ def gen(n_per_group, seed, append=False):
 def sh(cmd, cwd, env=None, timeout=3600):
     e = dict(os.environ)
     e.update(env or {})
+    # own process group, killed as a whole on timeout: a mutant's test binary that loops for ever must not
+    # outlive its cargo parent (it did, in the first survey, and ate ten cores for hours)
+    p = subprocess.Popen(cmd, shell=True, cwd=cwd, env=e, stdout=subprocess.PIPE, stderr=subprocess.STDOUT, text=True, start_new_session=True)
     try:
-        p = subprocess.run(cmd, shell=True, cwd=cwd, env=e, stdout=subprocess.PIPE, stderr=subprocess.STDOUT, text=True, timeout=timeout)
-        return p.returncode, p.stdout
+        out, _ = p.communicate(timeout=timeout)
+        return p.returncode, out
     except subprocess.TimeoutExpired:
+        import signal
+        try:
+            os.killpg(p.pid, signal.SIGKILL)
+        except ProcessLookupError:
+            pass
+        p.wait()
         return 124, "timeout"
 
 
